@@ -361,6 +361,10 @@ def _prepare_case(case):
                 reqs[algo] = ("viterbi", hmm_request(h, local, path, i0, j0))
             except (ValueError, AssertionError) as ex:
                 r["bad_hmm"] = str(ex)
+            if algo == "hirschberg" and not local and algo in reqs:
+                reqs["hmodel"] = ("hirschberg", dict(reqs[algo][1], limit=LIMITS["hirschberg"]))
+            if algo == "mixed" and not local and algo in reqs:
+                reqs["mmodel"] = ("hirschberg", dict(reqs[algo][1], limit=LIMITS["mixed"]))
             if uh is not None and algo == "full":
                 upath = rows_to_path(uh, *r["rows"])
                 if upath is not None:
@@ -515,6 +519,30 @@ def check_pair_cases(ctx, out, cases, kind_for_model="corr"):
                             sig=f"pw:limit-rows-differ:local:{algo}")
             else:
                 bump(out, f"{algo}_same_rows", a["rows"] == b["rows"])
+        # (4b) the Lean model of the divide-and-conquer itself (Model/Hirschberg.lean, split row n // 2) on the same hmm
+        for key, algo in (("hmodel", "hirschberg"), ("mmodel", "mixed")):
+            hm = rep.get((idx, key))
+            b = runs.get(algo, {})
+            if hm is None or "exc" in b:
+                continue
+            out["evaluations"] += 1
+            if "error" in hm or hm.get("score") is None:
+                add_failure(out, "corr", "Hirschberg model: driver error / -inf", dict(inp, algo=algo), b.get("score"), hm, confirmed=False)
+                continue
+            if hm["score"] != hm["full_score"] or hm["path_score"] != hm["score"] or hm["consumed"] != [len(case["s1"]), len(case["s2"])]:
+                add_failure(out, "corr", "Hirschberg model disagrees with the full-DP model (theorem hirschberg_eq_full broken?)", dict(inp, algo=algo),
+                            hm["full_score"], hm, confirmed=False)
+                continue
+            if abs(float(unrat(hm["score"])) - b["score"]) > _tol(b["score"]):
+                add_failure(out, "corr", f"Hirschberg model score differs from the implementation (HIRSCHBERG_LIMIT={LIMITS[algo]})", dict(inp, algo=algo),
+                            float(unrat(hm["score"])), b["score"], confirmed=False)
+                continue
+            mp = [tuple(t) for t in (hm.get("path") or [])]
+            lean_b = rep.get((idx, algo)) or {}
+            same = b.get("tb") is not None and mp == b["tb"]
+            bump(out, f"hirschberg_model_path_vs_impl:{algo}", "same" if same else ("tie" if lean_b.get("path_score") == hm["score"] else "differs-within-tol"))
+            if b.get("calls", 1) > 1:
+                out["nontrivial"].add(("hirsch-model", case["s1"], case["s2"], case["matname"], case["d"], case["e"], algo))
         # (5) the same alignment judged under the USER's matrix and gap costs (independent construction of the model)
         ul = rep.get((idx, "user"))
         if ul is not None and "exc" not in a and "error" not in ul:
@@ -610,8 +638,68 @@ def correspondence(ctx):
     cases = small_exhaustive_cases() + gen_pair_cases(rng, ctx.budget(60, 600), 12)
     check_pair_cases(ctx, out, cases)
     _brute_force(ctx, out, rng)
+    _classic_tie(ctx, out, rng)
     _gap_correspondence(ctx, out, rng)
     return out
+
+
+def _classic_tie(ctx, out, rng):
+    """Model/ClassicHMM.lean (score matrix + gap costs -> probability-space pair HMM, as classic_align_pairwise builds it)
+    vs the log arrays captured from the real hmm: transition matrix incl. BEGIN/END, match and gap emissions"""
+    import numpy
+
+    cases = gen_pair_cases(rng, ctx.budget(6, 40), 8)
+    reqs, keep = [], []
+    for c in cases:
+        s1, s2 = c["s1"].upper(), c["s2"].upper()
+        letters = DNA_ORDER(c["moltype"])
+        if any(ch not in letters for ch in s1 + s2):
+            continue
+        r = run_pairwise(s1, s2, c["moltype"], c["mat"], c["d"], c["e"], c["local"], 10**8)
+        if "exc" in r:
+            continue
+        with numpy.errstate(all="ignore"):
+            ed = float(numpy.exp(-1.0 * numpy.float64(c["d"])))
+            ee = float(numpy.exp(-1.0 * numpy.float64(c["e"])))
+            es = numpy.exp(numpy.array(c["mat"], float))
+        if not (ed > 0 and ee > 0 and numpy.all(es > 0) and numpy.all(numpy.isfinite(es))):
+            continue
+        xa, yb = [letters.index(ch) for ch in s1], [letters.index(ch) for ch in s2]
+        pairs = sorted({(a, b) for a in xa for b in yb})
+        reqs.append(("classic", dict(ed=rat(ed), ee=rat(ee), es=[[rat(float(v)) for v in row] for row in es], pairs=[list(p) for p in pairs])))
+        keep.append((c, r, xa, yb, pairs))
+    for (c, r, xa, yb, pairs), m in zip(keep, ctx.driver.batch(reqs) if reqs else []):
+        out["evaluations"] += 1
+        inp = dict(moltype=c["moltype"], mat=c["mat"], d=c["d"], e=c["e"], s1=c["s1"], s2=c["s2"])
+        if "error" in m:
+            add_failure(out, "corr", "classic HMM model: driver error", inp, "reply", m, confirmed=False)
+            continue
+        h = r["hmm"]
+        bad = None
+        for i in range(5):
+            for j in range(5):
+                mv = float(unrat(m["T"][i][j]))
+                rv = float(h["T"][i][j])
+                if mv == 0.0 or math.isinf(rv):
+                    if not (mv == 0.0 and math.isinf(rv) and rv < 0):
+                        bad = ("T", i, j, mv, rv)
+                elif abs(math.log(mv) - rv) > 1e-9 * max(1.0, abs(rv)):
+                    bad = ("T", i, j, math.log(mv), rv)
+        mm = {tuple(p): float(unrat(v)) for p, v in zip(pairs, m["match"])}
+        for i, a in enumerate(xa):
+            for j, b in enumerate(yb):
+                rv = float(h["M"][0][h["xi"][i]][h["yi"][j]])
+                if abs(math.log(mm[(a, b)]) - rv) > 1e-9 * max(1.0, abs(rv)):
+                    bad = ("match", a, b, math.log(mm[(a, b)]), rv)
+        if float(unrat(m["gap"])) != 1.0 or any(float(v) != 0.0 for v in list(h["X"][0]) + list(h["Y"][0])):
+            bad = ("gap", m["gap"])
+        if sorted(h["sd"]) != [(1, 0, 1, 0), (2, 0, 0, 1), (3, 0, 1, 1)]:
+            bad = ("state_directions", h["sd"])
+        if bad:
+            add_failure(out, "corr", "classic HMM model differs from the hmm classic_align_pairwise built", inp, bad[-2:], bad, confirmed=False)
+        else:
+            bump(out, "classic_hmm_tie", c["moltype"])
+            out["nontrivial"].add(("classic", str(c["mat"])[:200], c["d"], c["e"]))
 
 
 def _brute_force(ctx, out, rng):
